@@ -135,3 +135,37 @@ Proof.
   - unfold enc_array. change ARRAY with (4 * 32). now apply type_len_head.
   - unfold enc_map. change MAP with (5 * 32). now apply type_len_head.
 Qed.
+
+(* ---- encode::ArrayIter / MapIter: definite form iff the size hint is exact, else begin … end ---- *)
+From MC Require Import Types.
+
+Lemma flat_concat_sers (items : list (list chunk)) (es : list enc) :
+  Forall2 (fun cs e => flat cs = ser e) items es -> flat (concat items) = flat_map ser es.
+Proof.
+  induction 1 as [|cs e items es H _ IH]; [reflexivity|].
+  cbn [concat flat_map]. rewrite flat_app, H, IH. reflexivity.
+Qed.
+
+Theorem array_iter_form low up items es :
+  Forall2 (fun cs e => flat cs = ser e) items es -> low < 18446744073709551616 ->
+  (hint_exact low up = true -> low = len es) ->     (* an exact hint is honest *)
+  flat (enc_array_iter low up items) =
+    if hint_exact low up then ser (EArray (min_width (len es)) es) else ser (EArrayI es).
+Proof.
+  intros H Hl Hh. unfold enc_array_iter. destruct (hint_exact low up) eqn:E.
+  - rewrite flat_app, (flat_concat_sers _ _ H). unfold enc_array. change ARRAY with (4 * 32).
+    rewrite type_len_head by exact Hl. rewrite (Hh eq_refl). reflexivity.
+  - rewrite !flat_app, (flat_concat_sers _ _ H). reflexivity.
+Qed.
+
+Theorem map_iter_form low up pairs es :
+  Forall2 (fun cs e => flat cs = ser e) pairs es -> low < 18446744073709551616 ->
+  (hint_exact low up = true -> low = len es / 2) ->
+  flat (enc_map_iter low up pairs) =
+    if hint_exact low up then ser (EMap (min_width (len es / 2)) es) else ser (EMapI es).
+Proof.
+  intros H Hl Hh. unfold enc_map_iter. destruct (hint_exact low up) eqn:E.
+  - rewrite flat_app, (flat_concat_sers _ _ H). unfold enc_map. change MAP with (5 * 32).
+    rewrite type_len_head by exact Hl. rewrite (Hh eq_refl). reflexivity.
+  - rewrite !flat_app, (flat_concat_sers _ _ H). reflexivity.
+Qed.
